@@ -353,7 +353,8 @@ def run_check(prop, tier, seed, replay=None):
     obligations += pres['obligations']
     proof_ok = pres['ok'] and not gen_bad
 
-    # 3. harness
+    # 3-5. harness rounds: corpus (if any), the main run, and -- when a proof / extraction /
+    # correspondence obligation is broken but the oracle is silent -- a deeper search for a failing input
     hres = None
     cres = None
     fails = []
@@ -367,6 +368,26 @@ def run_check(prop, tier, seed, replay=None):
     replay_payload = None
     if replay:
         replay_payload = json.load(open(replay))
+
+    def one_round(tag, r_tier, r_seed, rops):
+        w = os.path.join(work, tag)
+        os.makedirs(w, exist_ok=True)
+        h = run_harness(cfg, binp, r_tier, r_seed, w, rops)
+        err = None
+        if h['rc'] != 0:
+            err = 'harness exited with %d: %s' % (h['rc'], h['stderr'][-1500:])
+        st = {}
+        if os.path.exists(os.path.join(h['out'], 'stats.json')):
+            try:
+                st = json.load(open(os.path.join(h['out'], 'stats.json')))
+            except ValueError:
+                st = {}
+        c = None
+        if pres['driver_ok'] and os.path.exists(os.path.join(h['out'], 'ops.txt')):
+            c = correspond(cfg, h, w)
+        return h, c, oracle_failures(h, prop), st, err
+
+    corpus_round = None
     if binp:
         rops = None
         if replay_payload is not None:
@@ -375,19 +396,43 @@ def run_check(prop, tier, seed, replay=None):
                 rops = [replay_payload['header']] + rops
         if replay_payload is not None and rops is None:
             notes.append('replay file names a broken obligation, no input: re-running the full check')
-        hres = run_harness(cfg, binp, tier, seed, work, rops)
-        if hres['rc'] != 0:
-            harness_err = 'harness exited with %d: %s' % (hres['rc'], hres['stderr'][-1500:])
-        if os.path.exists(os.path.join(hres['out'], 'stats.json')):
-            try:
-                stats = json.load(open(os.path.join(hres['out'], 'stats.json')))
-            except ValueError:
-                stats = {}
-        # 4. correspondence
-        if pres['driver_ok'] and os.path.exists(os.path.join(hres['out'], 'ops.txt')):
-            cres = correspond(cfg, hres, work)
-        # 5. oracle
-        fails = oracle_failures(hres, prop)
+        # corpus first (minimised past failures and hand-picked seeds)
+        cfiles = sorted(glob.glob(os.path.join(VERIF, 'corpus', prop, '*.txt')))
+        if cfiles and rops is None:
+            lines = []
+            for cf in cfiles:
+                body = [ln.rstrip('\n') for ln in open(cf) if ln.strip()]
+                if body and not body[0].startswith('case '):
+                    lines.append('case 0 corpus:' + os.path.basename(cf))
+                lines += body
+            corpus_round = one_round('corpus', tier, seed, lines)
+        hres, cres, fails, stats, harness_err2 = one_round('main', tier, seed, rops)
+        harness_err = harness_err or harness_err2
+        if corpus_round is not None:
+            ch, cc, cf_, cst, cerr = corpus_round
+            stats['corpus_cases'] = cst.get('cases', 0)
+            if cf_ or cerr or (cc is not None and not cc['ok']):
+                # a corpus failure takes precedence: report it through the normal path
+                hres, cres, fails, harness_err = ch, cc, cf_, cerr
+                notes.append('failure came from the corpus run')
+        broken = (not proof_ok) or (cres is not None and not cres['ok'])
+        if broken and not fails and not harness_err and rops is None and tier == 'quick':
+            # search: deeper generators / other seeds, bounded in time
+            t_search = time.time()
+            for k in (1, 2):
+                if time.time() - t_search > 240:
+                    break
+                try:
+                    sh, sc, sf, sst, serr = one_round('search%d' % k, 'thorough' if k == 1 else 'quick', seed + k, None)
+                except subprocess.TimeoutExpired:
+                    notes.append('search round %d timed out' % k)
+                    continue
+                notes.append('search round %d: %d cases, %d oracle failures' % (k, sst.get('cases', 0), len(sf)))
+                if sf or serr:
+                    hres, fails, harness_err = sh, sf, serr
+                    if sc is not None and not sc['ok']:
+                        cres = sc
+                    break
 
     # 6. verdict
     findings = [f for f in load_findings() if f.get('property') == prop]
@@ -487,9 +532,10 @@ def run_check(prop, tier, seed, replay=None):
         'wall_s': round(wall, 2),
         'violations': len(violations),
     }
-    os.makedirs(os.path.join(VERIF, 'evidence'), exist_ok=True)
-    with open(os.path.join(VERIF, 'evidence', prop + '.json'), 'w') as fh:
-        json.dump(ev, fh, indent=1)
+    if not replay:
+        os.makedirs(os.path.join(VERIF, 'evidence'), exist_ok=True)
+        with open(os.path.join(VERIF, 'evidence', prop + '.json'), 'w') as fh:
+            json.dump(ev, fh, indent=1)
     shutil.rmtree(work, ignore_errors=True)
     for path, suffix in violations:
         log(('VIOLATION property=%s replay=%s %s' % (prop, path, suffix)).rstrip())
